@@ -16,7 +16,7 @@ func init() {
 			"(found and fixed: `a\\  ` lost its quoted space, `a\\\\ ` kept an unquoted one) — and the scanner has a backslash case that advances the index; " +
 			"(parse-order) ParsePattern strips the negation mark before it trims and recognises the directory mark ('/' suffix) after it, so `!dir/  ` is a negated directory pattern; " +
 			"(wildmatch-codes) the matcher's four return codes have wildmatch.h's values and the retry loop of a star never ends in the plain no-match code (shared with C53); " +
-			"(comment-rule) a line is a comment only if it begins with '#' (no trimming before the test), and blank lines are skipped. Not decided: wildmatch itself, scopes and precedence across files, negation below an excluded directory.",
+			"(star-branch-consumes-stars-and-slashes-only) in the matcher's '*' case the pattern index steps only over the star, further stars and a boundary slash, so the rest of the pattern handed to the recursive call keeps every escaping backslash; (comment-rule) a line is a comment only if it begins with '#' (no trimming before the test), and blank lines are skipped. Not decided: wildmatch itself, scopes and precedence across files, negation below an excluded directory.",
 		Assumptions: []string{},
 		Run:         runC49,
 	})
